@@ -59,6 +59,9 @@ CLAIMED = {
  "C07": ("path-sensitive abstract interpretation (errpath) of every parser function returning (*ASTNode, error) under an assume-guarantee contract; typestate/who-may-receive analysis of the token channel; must-pass-through rules on the lexer",
          "Decides on every path of the parser's source: err == nil ⇒ non-nil node and only non-nil children appended (21+ functions, callee contracts as correlations); exactly one of (tree, error) at the API; the token channel is always drained (deferred drain registered before any return, receives only in the buffer and the owner); "
          "the lexer always closes the channel and stops only after an error token or at end of input. Termination for every byte string and per-kind child kinds beyond the shape table are not decided.", "3/C07"),
+ "C04": ("path-sensitive abstract interpretation (errpath) of every evaluation call in the interpreter (no error lost), structural rules on the try runtime (defer placement, dominating nil fact, classification gate decided path-sensitively, control dependence of name binding)",
+         "Decides the error-path clauses on every path of the interpreter's source: for each of ~150 Eval/Validate/Run calls a non-nil error is returned or inspected; finally is one deferred evaluation registered before the body; otherwise only where the body's error is nil; "
+         "control signals bypass the except dispatch on every path; an except child's token value is bound as a variable only under a test of its kind. Branch selection, the loop protocol and range arithmetic are runtime values and not decided.", "3/C04"),
 }
 
 NOT_YET = "check not built yet in this session (see DESIGN.md section 3 for the planned static rule)"
